@@ -43,14 +43,15 @@ ASSUMPTIONS = [
 ]
 _COUNTER = itertools.count()
 
-KINDS = ["dtype_bare", "dtype_chunk_data", "dtype_chunk_both", "row_early", "row_late", "wrong_label", "gap",
+KINDS = ["dtype_bare", "dtype_chunk_data", "dtype_chunk_both", "row_early", "row_late", "row_late_inner", "wrong_label", "gap",
          "overlap", "non_dict", "missing_output", "dtype_sibling_chunk", "label_sibling_chunk"]
 PLUGIN_KIND = {"source": "source", "rowwise": "ordinary", "filter": "ordinary", "merge": "ordinary",
                "multi": "multi", "loop": "loop", "overlap": "overlap", "downchunk": "downchunk", "exhaust": "ordinary"}
 APPLICABLE = {
-    "source": ["dtype_chunk_data", "dtype_chunk_both", "row_early", "row_late", "wrong_label", "gap", "overlap"],
-    "ordinary": ["dtype_bare", "dtype_chunk_data", "dtype_chunk_both", "row_early", "row_late", "wrong_label"],
-    "multi": ["dtype_bare", "dtype_sibling_chunk", "label_sibling_chunk", "row_early", "row_late", "non_dict",
+    "source": ["dtype_chunk_data", "dtype_chunk_both", "row_early", "row_late", "row_late_inner", "wrong_label", "gap", "overlap"],
+    "ordinary": ["dtype_bare", "dtype_chunk_data", "dtype_chunk_both", "row_early", "row_late", "row_late_inner",
+                 "wrong_label"],
+    "multi": ["dtype_bare", "dtype_sibling_chunk", "label_sibling_chunk", "row_early", "row_late", "row_late_inner", "non_dict",
               "missing_output"],
     "loop": ["dtype_bare", "dtype_chunk_data", "dtype_chunk_both", "row_late", "wrong_label"],
     "overlap": ["dtype_bare", "dtype_chunk_both", "row_late", "wrong_label"],
@@ -119,11 +120,16 @@ def make_mutation(kind):
                 b = a.copy()
                 if len(b):
                     b["time"][0] = start - 5
+                else:
+                    graphs.RUNTIME[plugin._vf_token]["noop"] = True  # no row that could start early
                 r[key] = b
-            elif kind == "row_late":
+            elif kind in ("row_late", "row_late_inner"):
                 b = a.copy()
-                if len(b):
-                    b["endtime"][-1] = end + 5
+                i = _late_index(b, kind)
+                if i is None:
+                    graphs.RUNTIME[plugin._vf_token]["noop"] = True
+                else:
+                    b["endtime"][i] = end + 5
                 r[key] = b
             return r
         a = arr_of(res)
@@ -139,11 +145,16 @@ def make_mutation(kind):
             b = a.copy()
             if len(b):
                 b["time"][0] = (res.start if isinstance(res, strax.Chunk) else start) - 5
+            else:
+                graphs.RUNTIME[plugin._vf_token]["noop"] = True  # no row that could start early
             return rebuild(plugin, res, b)
-        if kind == "row_late":
+        if kind in ("row_late", "row_late_inner"):
             b = a.copy()
-            if len(b):
-                b["endtime"][-1] = (res.end if isinstance(res, strax.Chunk) else end) + 5
+            i = _late_index(b, kind)
+            if i is None:
+                graphs.RUNTIME[plugin._vf_token]["noop"] = True
+            else:
+                b["endtime"][i] = (res.end if isinstance(res, strax.Chunk) else end) + 5
             return rebuild(plugin, res, b)
         if kind == "gap":
             first = graphs.RUNTIME[plugin._vf_token]["mutate"]["k"] == 0  # a run may start anywhere: no gap
@@ -303,13 +314,12 @@ def run_case(d):
         # was the mutation a real violation?  (empty outputs cannot carry early/late rows; a shifted start may
         # coincide with the previous end only if nothing changed)
         offender_rows = sum(len(ref[o]) for o in outs)
-        if d["violation"] in ("row_early", "row_late") and exc is None:
-            # the mutated output may have had no rows in that chunk -> nothing was violated
-            return dict(nt=False, classes=["vacuous:empty_chunk"])
         if rt.get("noop"):
+            # the mutation point reported that nothing could be violated there (an output without rows cannot carry
+            # an early / late row; no room for a gap / overlap): only then is "no exception" the right outcome
             if exc is not None:
                 raise Violation("novio.raised:" + type(exc).__name__, f"{tag} {exc!r} {d}") from exc
-            return dict(nt=False, classes=["vacuous:gap_or_overlap_not_possible_here"])
+            return dict(nt=False, classes=["vacuous:violation_not_possible_here"])
         if S is not None:
             if S.deadlock or S.timeouts_fired:
                 raise Violation("violation.hang", f"{tag} {S.deadlock} {S.timeout_events} {d}")
@@ -357,6 +367,15 @@ def run_case(d):
         graphs.drop_runtime(token)
         shutil.rmtree(path, ignore_errors=True)
         shutil.rmtree(path + "-dry", ignore_errors=True)
+
+
+def _late_index(b, kind):
+    """Index of the row that is made to end after its chunk: the last row (row_late), or a row that is NOT the last
+    one (row_late_inner: a long row followed by shorter ones - rows are sorted by time, not by endtime); None when the
+    output has too few rows for that."""
+    if kind == "row_late":
+        return len(b) - 1 if len(b) else None
+    return 0 if len(b) >= 2 else None
 
 
 def st_matrix_cell(pk, kind):
